@@ -80,7 +80,7 @@ def run_unit(unit, twin=False, rlimit=None, threads=2):
     import hashlib
     res.gen_sha = hashlib.sha256(text.encode()).hexdigest()
     res.gen_path = path
-    cmd = ['verus', path, '--output-json', '--time', '--error-format=json', '--multiple-errors', '64',
+    cmd = ['verus', path, '--output-json', '--time', '--error-format=json', '--multiple-errors', '1' if twin else '64',
            '--num-threads', str(threads), '--crate-name', 'u_' + re.sub(r'\W', '_', name)]
     if rlimit:
         cmd += ['--rlimit', str(rlimit)]
@@ -127,7 +127,7 @@ def run_unit(unit, twin=False, rlimit=None, threads=2):
     # map diagnostics
     for d in diags:
         if d.get('level') != 'error':
-            if d.get('level') == 'note' and 'not all errors may have been reported' in d.get('message', ''):
+            if d.get('level') == 'note' and 'not all errors may have been reported' in d.get('message', '') and not twin:
                 res.undecided.append('error limit reached in one function: ' + d.get('rendered', '')[:300])
             continue
         msg = d.get('message', '')
@@ -142,6 +142,11 @@ def run_unit(unit, twin=False, rlimit=None, threads=2):
         if known and kind is None:
             continue
         if any(u in msg for u in UNDECIDED_MSG):
+            if twin:
+                # a twin (`ensures false`) that exhausts the solver budget is simply not provable: non-vacuous
+                f = _map_failure(d, 'rlimit', g, unit)
+                res.failures.append(f)
+                continue
             res.undecided.append('solver: ' + msg + ' ' + _where(d, g))
             continue
         if not known:
